@@ -24,9 +24,14 @@
 //	   which starts at or above the filter start is indexed, and every indexed section equals the transposition of the stored
 //	   blooms of its heights; (P3) no height in [max(filter start, adh), current] lacks a bloom record.
 //
-//	L <salt> <op>;<op>…      op = n<k> | t<tx>+<tx>… | r | x      tx = [!]<log>/<log>… | _
+//	L <salt> <op>;<op>…      op = n<k> | t<tx>+<tx>… | r | x      tx = <flags><attempted logs | _>[~<fee log>]
 //	   A real solo ledger (ExecuteBlock + SubmitBlock). n<k>: k empty blocks; t: a block of EIP-155 contract-creation
-//	   transactions whose init code emits the given logs (LOG0..LOG4; `!` = the init code then REVERTs); r: close and reopen;
+//	   transactions whose init code emits the given logs (LOG0..LOG4). Flags: `!` the init code then REVERTs, `o` it then loops
+//	   until it is out of gas, `v` the transaction carries a value above the sender's balance (all three: receipt status FAILED,
+//	   the logs of the execution are gone), `$` the transaction pays a gas price of 500 Gwei: the harness funds the sender with a
+//	   native ONG transfer placed in the same block before the EVM transactions (a transaction WITHOUT receipt), and the receipt
+//	   - successful or failed - ends with the fee log `Transfer(sender, governance, fee)` of the ONG contract (MakeOngTransferLog),
+//	   which the line carries after `~`.  r: close and reopen;
 //	   x: close, delete the bloom key spaces from the block LevelDB (= data of a build without the index), reopen.
 //	   The stored bloom is read through Ledger.GetBloomData; the logs are read back from the ledger's own event store.
 //	   Output and P2/P3 as for B; predicate: every address/topic of every log the ledger reports tests positive in the stored bloom.
@@ -58,6 +63,7 @@ import (
 	"github.com/ontio/ontology/core/store/leveldbstore"
 	"github.com/ontio/ontology/core/types"
 	"github.com/ontio/ontology/smartcontract/event"
+	nutils "github.com/ontio/ontology/smartcontract/service/native/utils"
 	"github.com/syndtr/goleveldb/leveldb"
 	"github.com/syndtr/goleveldb/leveldb/util"
 	"verif/harness/internal/hx"
@@ -66,6 +72,8 @@ import (
 
 const SEC = ledgerstore.BloomBitsBlocks
 const mainADH = 13920000
+
+var oneOng = new(big.Int).Exp(big.NewInt(10), big.NewInt(18), nil)
 
 var (
 	prime  = new(big.Int).SetUint64(1<<61 - 1)
@@ -714,8 +722,8 @@ func senderKey(salt string, i int) *ecdsa.PrivateKey {
 	return k
 }
 
-// init code that emits the logs (no data) and stops, or reverts
-func initCode(logs []*types.StorageLog, revert bool) []byte {
+// init code that emits the logs (no data) and then stops, reverts, or loops until it is out of gas
+func initCode(logs []*types.StorageLog, revert, oog bool) []byte {
 	var c []byte
 	for _, l := range logs {
 		for i := len(l.Topics) - 1; i >= 0; i-- {
@@ -724,6 +732,10 @@ func initCode(logs []*types.StorageLog, revert bool) []byte {
 		}
 		c = append(c, 0x60, 0x00, 0x60, 0x00, byte(0xa0+len(l.Topics)))
 	}
+	if oog {
+		d := len(c) // JUMPDEST; PUSH2 d; JUMP
+		return append(c, 0x5b, 0x61, byte(d>>8), byte(d), 0x56)
+	}
 	if revert {
 		return append(c, 0x60, 0x00, 0x60, 0x00, 0xfd)
 	}
@@ -731,30 +743,90 @@ func initCode(logs []*types.StorageLog, revert bool) []byte {
 }
 
 type ltx struct {
-	logs   []*types.StorageLog
-	revert bool
+	logs                   []*types.StorageLog // what the init code tries to emit
+	fee                    *types.StorageLog   // fee log of a priced transaction
+	priced                 bool
+	revert, oog, overValue bool
+}
+
+func (t ltx) failed() bool { return t.revert || t.oog || t.overValue }
+
+// receiptLogs: what the receipt carries (and what executeBlock must put into the block bloom)
+func (t ltx) receiptLogs() []*types.StorageLog {
+	var out []*types.StorageLog
+	if !t.failed() {
+		out = append(out, t.logs...)
+	}
+	if t.fee != nil {
+		out = append(out, t.fee)
+	}
+	return out
+}
+
+var gasPriceWei = new(big.Int).Mul(big.NewInt(500), big.NewInt(1000000000))
+
+// feeLog: the log MakeOngTransferLog emits for the gas fee of a transaction of `sender`
+func feeLog(sender ethcommon.Address) *types.StorageLog {
+	return &types.StorageLog{
+		Address: ethcommon.BytesToAddress(nutils.OngContractAddress[:]),
+		Topics: []ethcommon.Hash{crypto.Keccak256Hash([]byte("Transfer(address,address,uint256)")),
+			ethcommon.BytesToHash(sender[:]), ethcommon.BytesToHash(nutils.GovernanceContractAddress[:])},
+	}
+}
+
+func sameLog(a, b *types.StorageLog) bool {
+	if a.Address != b.Address || len(a.Topics) != len(b.Topics) {
+		return false
+	}
+	for i := range a.Topics {
+		if a.Topics[i] != b.Topics[i] {
+			return false
+		}
+	}
+	return true
 }
 
 func parseTxs(s string, salt string, counter *int) ([]ltx, bool) {
 	var out []ltx
 	for _, ts := range strings.Split(s, "+") {
 		t := ltx{}
-		if strings.HasPrefix(ts, "!") {
-			t.revert = true
+		for len(ts) > 0 && strings.ContainsRune("$!ov", rune(ts[0])) {
+			switch ts[0] {
+			case '$':
+				t.priced = true
+			case '!':
+				t.revert = true
+			case 'o':
+				t.oog = true
+			case 'v':
+				t.overValue = true
+			}
 			ts = ts[1:]
 		}
-		ls, ok := parseLogs(ts)
+		parts := strings.Split(ts, "~")
+		if len(parts) > 2 || (len(parts) == 2) != t.priced {
+			return nil, false
+		}
+		ls, ok := parseLogs(parts[0])
 		if !ok || len(ls) > 12 {
 			return nil, false
 		}
 		// every log of a creation transaction carries the address of the contract being created
-		want := crypto.CreateAddress(crypto.PubkeyToAddress(senderKey(salt, *counter).PublicKey), 0)
+		sender := crypto.PubkeyToAddress(senderKey(salt, *counter).PublicKey)
+		want := crypto.CreateAddress(sender, 0)
 		for _, l := range ls {
 			if l.Address != want || len(l.Topics) > 4 {
 				return nil, false
 			}
 		}
 		t.logs = ls
+		if t.priced {
+			fl, ok := parseLogs(parts[1])
+			if !ok || len(fl) != 1 || !sameLog(fl[0], feeLog(sender)) {
+				return nil, false
+			}
+			t.fee = fl[0]
+		}
 		out = append(out, t)
 		*counter++
 	}
@@ -802,7 +874,8 @@ func execL(f []string) hx.Result {
 		}
 		h := &hist{saved: map[uint32]ethtypes.Bloom{0: {}}, legacyTo: -1}
 		counter := 0
-		nlogs, ntx, reopens, strips, nrev := 0, 0, 0, 0, 0
+		nlogs, ntx, reopens, strips, nfail, nfeefail, statusMismatch := 0, 0, 0, 0, 0, 0, 0
+		fundNonce := uint32(lineNo) << 12
 		res := hx.Result{}
 		if f[2] != "-" {
 			for _, op := range strings.Split(f[2], ";") {
@@ -841,24 +914,47 @@ func execL(f []string) hx.Result {
 					if !ok {
 						return hx.Result{Out: "bad-op", Kind: "bad-op"}
 					}
-					var btx []*types.Transaction
+					var btx, ftx []*types.Transaction
 					var expect []*types.StorageLog
 					for i, t := range txs {
-						tx, _, err := ledgerkit.EIP155Tx(senderKey(salt, first+i), 0, nil, new(big.Int), 400000, new(big.Int), initCode(t.logs, t.revert))
+						key := senderKey(salt, first+i)
+						price, value, gasLimit := new(big.Int), new(big.Int), uint64(400000)
+						if t.priced {
+							price = gasPriceWei
+							fundNonce++
+							fund, err := ledgerkit.OngTransferV2Tx(book, common.Address(crypto.PubkeyToAddress(key.PublicKey)), oneOng, fundNonce)
+							must(err)
+							ftx = append(ftx, fund)
+						}
+						if t.overValue {
+							value = new(big.Int).Mul(oneOng, big.NewInt(5))
+						}
+						if t.oog {
+							gasLimit = 120000
+						}
+						tx, _, err := ledgerkit.EIP155Tx(key, 0, nil, value, gasLimit, price, initCode(t.logs, t.revert, t.oog))
 						must(err)
 						btx = append(btx, tx)
 						ntx++
-						if t.revert {
-							nrev++
-						} else {
-							expect = append(expect, t.logs...)
-							nlogs += len(t.logs)
+						if t.failed() {
+							nfail++
+							if t.priced {
+								nfeefail++
+							}
 						}
+						expect = append(expect, t.receiptLogs()...)
+						nlogs += len(t.receiptLogs())
 					}
-					blk, err := kit.MakeBlock(btx)
+					blk, err := kit.MakeBlock(append(ftx, btx...)) // funding transactions (no receipt) first
 					must(err)
 					must(kit.Add(blk))
 					h.saved[blk.Header.Height] = blockBloom(expect)
+					for i, tx := range btx {
+						n, err := kit.Ledger.GetEventNotifyByTx(tx.Hash())
+						if err != nil || n == nil || (n.State == event.CONTRACT_STATE_SUCCESS) == txs[i].failed() {
+							statusMismatch++ // the generated transaction did not fail / succeed as its flags say
+						}
+					}
 				default:
 					return hx.Result{Out: "bad-op", Kind: "bad-op"}
 				}
@@ -906,6 +1002,9 @@ func execL(f []string) hx.Result {
 		if h.legacyTo < 0 && seen != nlogs {
 			res.Out += fmt.Sprintf(" logs-seen=%d/%d", seen, nlogs)
 		}
+		if statusMismatch > 0 {
+			res.Out += fmt.Sprintf(" status-mismatch=%d", statusMismatch)
+		}
 		if res.Fail == "" {
 			res.Class, res.Fail = checkStore(bs, o, h, kit.Ledger.GetBloomData)
 		}
@@ -913,7 +1012,7 @@ func execL(f []string) hx.Result {
 		if curH >= SEC-1 {
 			sec = 1
 		}
-		res.Kind = fmt.Sprintf("L:logs=%s:reverted=%s:reopens=%s:strip=%d:sections=%d", lbucket(nlogs), bucket(nrev), bucket(reopens), strips, sec)
+		res.Kind = fmt.Sprintf("L:logs=%s:failed=%s:failed-with-fee-log=%s:reopens=%s:strip=%d:sections=%d", lbucket(nlogs), bucket(nfail), bucket(nfeefail), bucket(reopens), strips, sec)
 		if nlogs > 0 {
 			res.Key = "L" + o.out
 		}
@@ -1158,8 +1257,18 @@ func genB(r *hx.Rand, fresh bool, budget int) string {
 	return fmt.Sprintf("B %d j%d %s %s", adh, h, genRule(r), genBOps(r, h, budget))
 }
 
-func genLTx(r *hx.Rand, p *pool, salt string, counter *int) string {
-	addr := crypto.CreateAddress(crypto.PubkeyToAddress(senderKey(salt, *counter).PublicKey), 0)
+func logItems(l *types.StorageLog) string {
+	its := []string{item(l.Address[:])}
+	for _, t := range l.Topics {
+		its = append(its, item(t[:]))
+	}
+	return strings.Join(its, ",")
+}
+
+// genLTx: flags 0 = random; otherwise the given flags (e.g. "$v")
+func genLTx(r *hx.Rand, p *pool, salt string, counter *int, flags string) string {
+	sender := crypto.PubkeyToAddress(senderKey(salt, *counter).PublicKey)
+	addr := crypto.CreateAddress(sender, 0)
 	*counter++
 	var logs []string
 	for n := r.Intn(4); n > 0; n-- {
@@ -1170,16 +1279,43 @@ func genLTx(r *hx.Rand, p *pool, salt string, counter *int) string {
 	if len(logs) > 0 {
 		s = strings.Join(logs, "/")
 	}
-	if r.Chance(15) {
-		s = "!" + s
+	if flags == "" {
+		if r.Chance(40) {
+			flags = "$"
+		}
+		switch x := r.Intn(100); {
+		case x < 14:
+			flags += "!"
+		case x < 22:
+			flags += "o"
+		case x < 30:
+			flags += "v"
+		}
+	} else if flags == "-" {
+		flags = ""
 	}
-	return s
+	if strings.Contains(flags, "$") {
+		s += "~" + logItems(feeLog(sender))
+	}
+	return flags + s
 }
 
 func genLBlock(r *hx.Rand, p *pool, salt string, counter *int) string {
 	var txs []string
-	for n := 1 + r.Intn(3); n > 0; n-- {
-		txs = append(txs, genLTx(r, p, salt, counter))
+	switch r.Intn(8) {
+	case 0: // a failing transaction that pays a fee, alone in its block: the fee log is the only log of the block
+		txs = append(txs, genLTx(r, p, salt, counter, []string{"$!", "$o", "$v"}[r.Intn(3)]))
+	case 1: // a successful emitting transaction mixed with a failing one that pays a fee, in either order
+		bad := []string{"$!", "$o", "$v"}[r.Intn(3)]
+		good := []string{"-", "$"}[r.Intn(2)]
+		if r.Bool() {
+			bad, good = good, bad
+		}
+		txs = append(txs, genLTx(r, p, salt, counter, bad), genLTx(r, p, salt, counter, good))
+	default:
+		for n := 1 + r.Intn(3); n > 0; n-- {
+			txs = append(txs, genLTx(r, p, salt, counter, ""))
+		}
 	}
 	return "t" + strings.Join(txs, "+")
 }
@@ -1278,7 +1414,33 @@ func corpus() []string {
 	}
 }
 
+// failedFeeCorpus: the minimal cases of a failed EVM transaction whose receipt still carries the fee log — alone in its block
+// (insufficient funds / revert / out of gas) and mixed with a successful emitting transaction.  `C43_PRINT_CORPUS=1 hx-c43` prints
+// them; they live in corpus/C43/failed-fee.ops.
+func failedFeeCorpus() []string {
+	r := hx.NewRand(43)
+	var out []string
+	for _, fl := range []string{"$v", "$!", "$o"} {
+		p, c := newPool(r), 0
+		out = append(out, fmt.Sprintf("L c43%s t%s", fl[1:], genLTx(r, p, "c43"+fl[1:], &c, fl)))
+	}
+	p, c := newPool(r), 0
+	a := genLTx(r, p, "c43mix", &c, "$")
+	b := genLTx(r, p, "c43mix", &c, "$v")
+	d := genLTx(r, p, "c43mix", &c, "!")
+	out = append(out, fmt.Sprintf("L c43mix t%s+%s+%s;r", a, b, d))
+	return out
+}
+
 func main() {
+	if os.Getenv("C43_PRINT_CORPUS") != "" {
+		setup()
+		for _, l := range failedFeeCorpus() {
+			fmt.Println(l)
+		}
+		os.RemoveAll(base)
+		return
+	}
 	defer func() {
 		if base != "" && os.Getenv("HX_CHILD") == "" {
 			os.RemoveAll(base)
@@ -1289,7 +1451,9 @@ func main() {
 		Rule: "G: one section of S blocks (S in 8..256, 4096 through the repo's PutBloomIndex/ReadBloomBits) with generated logs (shared and fresh " +
 			"addresses/topics, topics whose bloom bit is 0/7/8/1023/1024/2040/2047), non-trivial = at least one log; B: real BlockStore bookkeeping " +
 			"(fresh ledgers and legacy block stores, solo and main-net heights around section boundaries and around the filter start), " +
-			"non-trivial = at least one block saved; L: real solo ledgers with EVM transactions emitting LOG0..LOG4, non-trivial = at least one log",
+			"non-trivial = at least one block saved; L: real solo ledgers with EVM transactions emitting LOG0..LOG4, successful and failed " +
+			"(revert / out of gas / value above balance), with gas price 0 or 500 Gwei (fee log of the ONG contract also on failed receipts), " +
+			"failing transactions alone in a block and mixed with emitting ones, non-trivial = at least one log",
 		Gen:    gen,
 		Exec:   exec,
 		Corpus: corpus(),
